@@ -184,3 +184,70 @@ def lib_rt_functions(repo_root: str) -> tuple[dict, dict]:
         json.dump({"functions": funcs, "macros": macros, "unit_errors": errors}, fh)
     os.replace(cpath + f".{os.getpid()}.tmp", cpath)
     return funcs, macros
+
+
+def _slim(n: dict) -> dict:
+    """Reduce a clang JSON node to what the expression rules need."""
+    out = {"kind": n.get("kind")}
+    for k in ("opcode", "value", "name", "castKind", "argType"):
+        if k in n:
+            out[k] = n[k]
+    if "referencedDecl" in n:
+        out["ref"] = n["referencedDecl"].get("name")
+    if "type" in n:
+        out["type"] = n["type"].get("qualType")
+    if n.get("kind") == "UnaryExprOrTypeTraitExpr":
+        out["argType"] = (n.get("argType") or {}).get("qualType")
+    inner = [c for c in (n.get("inner") or []) if isinstance(c, dict) and c.get("kind")]
+    if inner:
+        out["inner"] = [_slim(c) for c in inner]
+    return out
+
+
+def function_bodies(repo_root: str, header: str, names: list[str]) -> dict[str, dict]:
+    """Slim expression trees of the named inline functions of a lib-rt header (clang -ast-dump-filter)."""
+    librt = os.path.join(repo_root, "mypyc", "lib-rt")
+    clang = shutil.which("clang") or shutil.which("clang-14")
+    if clang is None:
+        raise AnalysisError("clang not available")
+    path = os.path.join(librt, header)
+    h = hashlib.sha1()
+    for f in sorted(glob.glob(os.path.join(librt, "*.h"))):
+        with open(f, "rb") as fh:
+            h.update(os.path.relpath(f, librt).encode() + b"\0" + fh.read())
+    h.update(("|".join(names) + header).encode())
+    with open(__file__, "rb") as fh:
+        h.update(fh.read())
+    cpath = os.path.join(CACHE, "bodies_" + h.hexdigest() + ".json")
+    if os.path.exists(cpath):
+        with open(cpath) as fh:
+            return json.load(fh)
+    incs = [librt, py_include()]
+    out: dict[str, dict] = {}
+    for nm in names:
+        cmd = [clang, "-fsyntax-only", "-Xclang", "-ast-dump=json", "-Xclang", f"-ast-dump-filter={nm}", "-w"] + [f"-I{i}" for i in incs] + [path]
+        p = subprocess.run(cmd, capture_output=True, text=True, cwd=librt)
+        txt = p.stdout
+        dec = json.JSONDecoder()
+        i = 0
+        while i < len(txt):
+            while i < len(txt) and txt[i] in " \n\r\t":
+                i += 1
+            if i >= len(txt):
+                break
+            try:
+                d, j = dec.raw_decode(txt, i)
+            except ValueError:
+                nxt = txt.find("{", i + 1)
+                if nxt < 0:
+                    break
+                i = nxt
+                continue
+            i = j
+            if d.get("kind") == "FunctionDecl" and d.get("name") == nm and any(c.get("kind") == "CompoundStmt" for c in d.get("inner", []) if isinstance(c, dict)):
+                out[nm] = _slim(d)
+    os.makedirs(CACHE, exist_ok=True)
+    with open(cpath + f".{os.getpid()}.tmp", "w") as fh:
+        json.dump(out, fh)
+    os.replace(cpath + f".{os.getpid()}.tmp", cpath)
+    return out
